@@ -105,7 +105,7 @@ Toks == {[sign |-> sg, mag |-> m, prefix |-> p, unit |-> u, sys |-> y] :
 QemuCases ==
   {[mag |-> m, unit |-> u, bytes |-> b] :
       m \in {"0", "1", "64", "1.5", "96", "2048", "0.5", "1e+03", "2.5e+03", "1E-01"},
-      u \in {"", "K", "M", "G", "T", "KB", "MiB", "B", "k"},
+      u \in {"", "K", "M", "G", "T", "KB", "MiB", "B", "k", "Kb", "Mib", "bit", "Kibit"},
       b \in {"", "0", "67108864", "1"}}
 QemuRef(q) ==
   IF q.bytes # "" THEN [k |-> "int", v |-> q.bytes]
